@@ -62,7 +62,9 @@ Flags(r) ==
                   \cup (IF Len(d.rest) = 0 THEN {} ELSE {})
              ELSE {"noncanon"}
      ELSE IF d.ok /\ r.st = "err" THEN {"ref-ok-impl-err"}
-     ELSE IF ~d.ok /\ r.st = "ok" THEN {"ref-err-impl-ok"}
+     \* the reference rejects the bytes because a number does not fit its field, the implementation returns a value: that value
+     \* is a wrapped / narrowed number (C02), whatever else the implementation may be lenient about
+     ELSE IF ~d.ok /\ r.st = "ok" THEN (IF d.err = "Overflow" THEN {"ref-err-impl-ok", "P02-wrapped"} ELSE {"ref-err-impl-ok"})
      ELSE (IF SameKind(d.err, r.kind) THEN {} ELSE {"kind"})
           \cup (IF d.tags = r.tags THEN {} ELSE {"tags"}))
     \cup ClassFlags(r)
